@@ -185,7 +185,7 @@ CLAIMED.update({
              "_build_constant's decision, and a call-site lemma (only annotation helpers use auto mode). That the templates parse back to the source tree "
              "is validated against ast.parse on a catalogue of expressions (bounded native tier).",
         note="Children are abstracted to (class, operator, uninterpreted rendering); arbitrary nesting follows by structural induction (paper). Quick tier: one child at a "
-             "time is arbitrary, thorough: all at once; child sequences have 0..2 elements. Fixed: C03-P1..P9 (parenthesization and 8 rendering defects); "
+             "time is arbitrary, thorough: every pair at once; child sequences have 0..2 elements. Fixed: C03-P1..P9 (parenthesization and 8 rendering defects); "
              "known: C03-F1 (f-string conversion / format spec not stored).",
         ref="DESIGN.md 3/C03"),
 })
